@@ -647,7 +647,18 @@ class _Interp:
           return res
         left = right
       return True
-    if isinstance(e, ast.ListComp):
+    if isinstance(e, ast.Subscript) and isinstance(e.ctx, ast.Load) and not isinstance(e.slice, ast.Slice):
+      seq, k = self.eval(e.value, env), self.eval(e.slice, env)
+      if isinstance(seq, (list, tuple)) and isinstance(k, int) and not isinstance(k, bool):
+        if -len(seq) <= k < len(seq):
+          return seq[k]
+        raise _unmodelled(f"`{src(e)[:50]}`: index {k} out of range (the run would end in an exception)")
+      if isinstance(seq, _Opaque) or isinstance(k, _Opaque):
+        return _Opaque(src(e)[:40])
+      raise _unmodelled(f"expression `{src(e)[:50]}`")
+    if isinstance(e, (ast.ListComp, ast.GeneratorExp)):
+      # a generator expression is evaluated eagerly: its consumers in the modelled code (unpacking, any/all,
+      # tuple/list, a for loop) read it once, front to back, and element expressions have no modelled effects
       return self.comp(e, env)
     if isinstance(e, ast.BinOp) and isinstance(e.op, (ast.Add, ast.Sub)):
       a, b = self.eval(e.left, env), self.eval(e.right, env)
